@@ -60,7 +60,9 @@ ErrFlag(o) == o.er # 0
 Adopt(s, o) == [s EXCEPT !.rpos = o.rp, !.wpos = o.wp,
                          !.frames = IF FrObs(s) THEN (IF s.relax THEN Min(o.fr, 1000000) ELSE o.fr) ELSE Max(s.frames, o.wp),
                          !.err = ErrFlag(o),
-                         !.nd = IF "nd" \in DOMAIN o THEN o.nd ELSE @, !.nf = IF "nf" \in DOMAIN o THEN o.nf ELSE @]
+                         !.nd = IF "nd" \in DOMAIN o THEN o.nd ELSE @, !.nf = IF "nf" \in DOMAIN o THEN o.nf ELSE @,
+                         !.sif = IF "sif" \in DOMAIN o THEN o.sif ELSE @, !.sfi = IF "sfi" \in DOMAIN o THEN o.sfi ELSE @,
+                         !.cl = IF "cl" \in DOMAIN o THEN o.cl ELSE @]
 
 -----------------------------------------------------------------------------
 \* sf_read_short/int/float/double and sf_readf_* (c.T in s i f d; c.unit in i f)
@@ -81,9 +83,29 @@ FloatOfL(L) == IF L = -2147483647 - 1 THEN <<-1, 0>>
                ELSE LET a == Abs(L)  b == BitLen31(a) IN
                     IF b <= 24 THEN DyNorm(L, -31)
                     ELSE LET k == b - 24 IN DyNorm((IF L < 0 THEN -1 ELSE 1) * RoundHE(a, k), k - 31)
+\* ---- float / double data read through the integer types (C02) ----
+\* With float-to-int scaling off (the default) sf_read_int / sf_read_short deliver the nearest integer to the stored value (ties to
+\* even); with clipping on, values at or beyond the integer extremes saturate there (the upper limits are INT_MAX and 0x7FFF), with
+\* clipping off the result for such values is not specified.  The stored value d = <<m, e>> is known exactly (dyadic).
+DyBits(d) == BitLen31(Abs(d[1])) + d[2]                     \* |x| < 2^DyBits, and |x| >= 2^(DyBits - 1) when x # 0
+NearestInt(d) ==                                            \* for |x| < 2^31
+    LET m == d[1] e == d[2] a == Abs(m) sg == IF m < 0 THEN -1 ELSE 1 IN
+    IF m = 0 THEN 0 ELSE IF e >= 0 THEN m * Pow2(e)
+    ELSE IF DyBits(d) < 0 THEN 0                            \* |x| < 1/2
+    ELSE IF DyBits(d) = 0 THEN (IF a = 1 THEN 0 ELSE sg)     \* 1/2 <= |x| < 1: exactly 1/2 goes to the even neighbour 0
+    ELSE sg * RoundHE(a, -e)
+FloatToIntOK(T, d, clip, x) ==
+    LET bits == IF T = "i" THEN 32 ELSE 16
+        hi == IF T = "i" THEN 2147483647 ELSE 32767  lo == -hi - 1 IN
+    IF Len(d) # 2 \/ d[2] < -30 \/ d[2] > 31 THEN TRUE          \* (split mantissas and extreme exponents are not generated)
+    ELSE IF DyBits(d) >= bits THEN (clip => x = (IF d[1] > 0 THEN hi ELSE lo))       \* |x| >= 2^(bits-1)
+    ELSE LET n == NearestInt(d) IN IF n > hi THEN (clip => x = hi) ELSE x = n
+
 XTypeOK(s, c, k, v, x) ==
     LET lj == LeftJust(Sub(s.fmt), k, v) IN
-    IF ~lj[1] THEN TRUE
+    IF Sub(s.fmt) \in {S_FLOAT, S_DOUBLE} /\ k \in {"f", "d"} /\ c.T \in {"s", "i"} THEN
+         (("dy" \in DOMAIN c /\ c.dy /\ "sfi" \in DOMAIN s /\ s.sfi = 0 /\ (Sub(s.fmt) = S_FLOAT \/ k = "d")) => FloatToIntOK(c.T, v, s.cl = 1, x))
+    ELSE IF ~lj[1] THEN TRUE
     ELSE CASE c.T = "i" -> x = lj[2]
            [] c.T = "s" -> x = lj[2] \div 65536
            [] c.T = "f" -> ("dy" \in DOMAIN c /\ c.dy /\ s.nf = 1) => x = FloatOfL(lj[2])
@@ -92,9 +114,12 @@ XTypeOK(s, c, k, v, x) ==
 
 ItemOK(s, c, k, v, x) == IF k = c.T THEN v = x ELSE IF k = "-" THEN TRUE ELSE XTypeOK(s, c, k, v, x)
 
+EstFrames(s) == Major(s.fmt) = M_RAW /\ Sub(s.fmt) \in {S_DWVW12, S_DWVW16, S_DWVW24, S_DWVWN}
+
 ReadInvalid(s, c) == c.n < 0 \/ s.mode = SFM_WRITE \/ (c.unit = "i" /\ c.n % s.ch # 0)
 
-ReadOK(s, cv, c, o) ==
+\* est = TRUE evaluates the clause with deviation D20 granted (used only to name the reason of a rejection, see TraceCore!Why)
+ReadOKx(s, cv, c, o, est) ==
     /\ o.guard = 1                                   \* nothing outside the requested region is touched
     /\ IF c.n = 0 THEN o.ret = 0 /\ SamePos(s, o) /\ ErrFlag(o) = s.err
        ELSE IF ReadInvalid(s, c) THEN o.ret = 0 /\ ErrFlag(o) /\ SamePos(s, o)
@@ -104,7 +129,12 @@ ReadOK(s, cv, c, o) ==
        ELSE LET want == Min(Items(s, c), (s.frames - s.rpos) * s.ch)
                 ri   == RetItems(s, c, o)
                 base == s.rpos * s.ch
-            IN /\ IF s.relax THEN ri >= 0 /\ ri <= want ELSE ri = want /\ ~ErrFlag(o)
+            IN /\ IF s.relax THEN ri >= 0 /\ ri <= want
+                  \* (a headerless DWVW bit stream has no frame count; the one reported is an estimate from the file length.  With est: reads
+                  \*  deliver at least the frames really written -- when the model knows how many, s.nreal -- and may stop before the estimate)
+                  ELSE IF est /\ EstFrames(s) THEN /\ ri >= 0 /\ ri <= want /\ ~ErrFlag(o)
+                                            /\ (("nreal" \in DOMAIN s /\ s.nreal >= 0) => ri >= Min(want, Max(0, s.nreal - s.rpos) * s.ch))
+                  ELSE ri = want /\ ~ErrFlag(o)
                /\ o.rp = s.rpos + ri \div s.ch /\ o.wp = s.wpos /\ (FrCheck(s) => o.fr = s.frames)
                /\ o.outn = ri                                   \* exactly the returned number of items is delivered
                /\ (~s.relax) => Len(o.out) = ri
@@ -112,11 +142,15 @@ ReadOK(s, cv, c, o) ==
                \* (written as a set comparison so that TLC evaluates it as a value: a disjunction under \A inside ENABLED branches)
                /\ s.relax \/ {i \in 1..ri : base + i <= Len(cv.kt) /\ ~ItemOK(s, c, cv.kt[base + i], cv.val[base + i], o.out[i])} = {}
 
+ReadOK(s, cv, c, o) == ReadOKx(s, cv, c, o, FALSE)
+
 ReadPost(s, cv, c, o) ==
     IF c.n <= 0 \/ ReadInvalid(s, c) \/ s.rpos >= s.frames \/ s.relax THEN [s |-> Adopt(s, o), cv |-> cv]
     ELSE LET ri == RetItems(s, c, o)  base == s.rpos * s.ch
              \* an item whose left-justified code is already known keeps that (it determines the value under every type)
-             keep(i) == base + i <= Len(cv.kt) /\ LeftJust(Sub(s.fmt), cv.kt[base + i], cv.val[base + i])[1]
+             keep(i) == base + i <= Len(cv.kt)
+                        /\ \/ LeftJust(Sub(s.fmt), cv.kt[base + i], cv.val[base + i])[1]
+                           \/ (Sub(s.fmt) \in {S_FLOAT, S_DOUBLE} /\ cv.kt[base + i] \in {"f", "d"} /\ c.T \in {"s", "i"})   \* the float value says more
              v2 == Splice(cv.val, base, [i \in 1..ri |-> IF keep(i) THEN cv.val[base + i] ELSE o.out[i]], 0)
              k2 == Splice(cv.kt, base, [i \in 1..ri |-> IF keep(i) THEN cv.kt[base + i] ELSE c.T], "-")
          IN [s |-> Adopt(s, o), cv |-> [cv EXCEPT !.val = v2, !.kt = k2]]
@@ -163,10 +197,15 @@ WritePost(s, cv, c, o) ==
     IF c.n <= 0 \/ WriteInvalid(s, c) THEN [s |-> Adopt(s, o), cv |-> cv]
     ELSE LET wi   == RetItems(s, c, o)
              base == s.wpos * s.ch
-             tag  == IF Lossless(c.T, Sub(s.fmt), c.v) THEN c.T ELSE "-"
+             \* integers written into a float / double file (scaling off, the default): the integer v is stored as the floating point
+             \* number v, exactly when |v| < 2^24; known under the file's own type as the dyadic <<v, 0>> (needs dyadic logging)
+             i2f  == c.T \in {"s", "i"} /\ Sub(s.fmt) \in {S_FLOAT, S_DOUBLE} /\ "dy" \in DOMAIN c /\ c.dy /\ "sif" \in DOMAIN s /\ s.sif = 0
+                     /\ \A i \in 1..Len(c.v) : c.v[i] > -16777216 /\ c.v[i] < 16777216
+             tag  == IF Lossless(c.T, Sub(s.fmt), c.v) THEN c.T ELSE IF i2f THEN (IF Sub(s.fmt) = S_FLOAT THEN "f" ELSE "d") ELSE "-"
+             wv   == IF i2f /\ ~Lossless(c.T, Sub(s.fmt), c.v) THEN [i \in 1..Len(c.v) |-> DyNorm(c.v[i], 0)] ELSE c.v
              over == s.wpos < s.frames
          IN [s  |-> [Adopt(s, o) EXCEPT !.hw = TRUE],
-             cv |-> [cv EXCEPT !.val = Splice(cv.val, base, Take(c.v, wi), 0),
+             cv |-> [cv EXCEPT !.val = Splice(cv.val, base, Take(wv, wi), 0),
                                !.kt  = Splice(cv.kt, base, Rep(tag, wi), "-"),
                                !.gen = IF over THEN cv.gen + 1 ELSE cv.gen,
                                !.hdrN = IF s.auto THEN o.fr ELSE IF over THEN cv.hdrN ELSE cv.hdrN]]
@@ -224,7 +263,12 @@ SeekOK(s, cv, c, o) ==
             /\ o.wp = (IF nm \in {SFM_WRITE, SFM_RDWR} THEN k ELSE s.wpos)
          \/ SeekMayRefuse(s, c) /\ SeekFailObs(s, o)
 
-SeekPost(s, cv, c, o) == [s |-> Adopt(s, o), cv |-> cv]
+\* D21: no property says what a block encoder (not sample granular) opened write-only does with its output after its write
+\* pointer has been moved (C08 quantifies over RDWR handles of sample-granular encodings; C06 / C09 only fix the return value):
+\* the library may refuse such a seek, and when it accepts one the handle is followed with the widened clauses from then on
+SeekPost(s, cv, c, o) ==
+    LET moved == ~s.gran /\ s.mode = SFM_WRITE /\ o.ret >= 0 /\ o.wp # s.wpos IN
+    [s |-> [Adopt(s, o) EXCEPT !.relax = @ \/ moved], cv |-> cv]
 
 SeekPred(s, cv, c) ==
     LET fail == [ret |-> -1, er |-> 1, rp |-> s.rpos, wp |-> s.wpos, fr |-> s.frames] IN
